@@ -1535,6 +1535,201 @@ def grid_chunk(P, rep, rule="GRID.chunk"):
     rep.floor(rule, n_ok, 2, "chunk grid dimensions verified")
 
 
+def grid_annulus(P, rep, rule="GRID.annulus"):
+    """the annulus mesh: n_t x (n_z + 1) nodes on circles, quads wrapping around"""
+    rep.rule(rule, "gwb-grid, grid_type annulus: with n_t cells around and n_z cells across, node N(i, j) = j*n_t + (i-1) (i = 1..n_t, j = 0..n_z) "
+                   "ends up at radius z_min + j*(z_max - z_min)/n_z and angle (i-1)*2*pi/n_t (the first stage stores arc length and height, the "
+                   "second stage visits the same n_t*(n_z+1) nodes in the same order and maps them to (cos, sin)*(inner radius + height)); cell "
+                   "(i, j), j = 1..n_z, lists N(i+1, j-1), N(i, j-1), N(i, j), N(i+1, j) - a closed walk around one lattice cell - where i+1 "
+                   "wraps to 1 in the last column")
+    from .expr import Block
+    F = main_of(P, "gwb-grid")
+    R = lambda x: norm.render(P, x, nocast=True).replace(" ", "")
+    blocks = [x for x in F.walk() if x.get("k") == "IfStmt" and R(x["c"][0]) in ('(grid_type=="annulus")', '("annulus"==grid_type)')]
+    if len(blocks) != 1:
+        rep.unknown(rule, "%d `grid_type == \"annulus\"` blocks" % len(blocks))
+        return
+    blk = blocks[0]["c"][1]
+    miss = astq.missing_anchors(P, F, ["z_min", "z_max", "n_cell_z", "n_cell_t", "grid_x", "grid_z", "grid_connectivity", "counter"])
+    if miss:
+        rep.unknown(rule, "gwb-grid main: the variables %s this rule is written over no longer exist (renamed?)" % miss)
+        return
+    nz, nt = sp.symbols("n_cell_z n_cell_t", integer=True, positive=True)
+    zmin, zmax = sp.symbols("z_min z_max", positive=True)
+    env0 = {}
+    for nm_, sy_ in (("n_cell_z", nz), ("z_min", zmin), ("z_max", zmax)):
+        env0[var_by_name(F, nm_)] = sy_
+    ntk = [n_["r"] for n_ in F.walk(blk) if n_.get("k") == "VarDecl" and n_.get("n") == "n_cell_t"]
+    if len(ntk) != 1:
+        rep.unknown(rule, "n_cell_t is not declared once inside the annulus block")
+        return
+    env0[ntk[0]] = nt
+
+    def hook_pi(nn):
+        if nn.get("k") == "DeclRefExpr" and P.d(nn["r"]).get("qn") == "WorldBuilder::Consts::PI":
+            return sp.pi
+        return None
+
+    def nest_of(node):
+        out = []
+        for a in F.ancestors(node):
+            if a is blk:
+                break
+            if a.get("k") == "ForStmt":
+                init, cond = a["c"][0], sc(a["c"][1])
+                iv = init["c"][0] if init is not None and init.get("k") == "DeclStmt" and init["c"] else None
+                if iv is None or not iv.get("c") or sc(iv["c"][0]).get("k") != "IntegerLiteral" or cond is None or cond.get("op") not in ("<", "<="):
+                    return None
+                inc = sc(a["c"][2]) if a["c"][2] is not None else None
+                if inc is None or inc.get("k") != "UnaryOperator" or inc.get("op") != "++":
+                    return None
+                last = sp.expand(norm.Sym(P, F, inline_locals=True, env=dict(env0))(cond["c"][1]))
+                if cond["op"] == "<":
+                    last = last - 1
+                out.append((iv["r"], int(sc(iv["c"][0])["v"]), last, a))
+        return out[::-1]
+
+    def counter_of(nest, syms):
+        total, stride = sp.Integer(0), sp.Integer(1)
+        for (key, st, last, _) in reversed(nest):
+            total += (syms[key] - st) * stride
+            stride *= (last - st + 1)
+        return sp.expand(total), sp.expand(stride)
+    # ---- stage 1 and stage 2: stores to grid_x[counter] / grid_z[counter]
+    stages = []
+    for y in F.walk(blk):
+        if y.get("k") == "BinaryOperator" and y.get("op") == "=":
+            s_ = astq.subscript(y["c"][0])
+            if s_ and sc(s_[0]).get("n") in ("grid_x", "grid_z") and R(s_[1]) == "counter":
+                nest = nest_of(y)
+                if nest and len(nest) == 2:
+                    inner = nest[-1][3]
+                    if not stages or stages[-1][0] is not inner:
+                        stages.append((inner, nest, {}))
+                    stages[-1][2][sc(s_[0])["n"]] = y
+    stages = [st for st in stages if set(st[2]) == {"grid_x", "grid_z"}]
+    if len(stages) != 2:
+        rep.unknown(rule, "the two node stages (arc length / height, then (x, z)) were not recognised (%d found)" % len(stages))
+        return
+    problems = []
+    (l1, nest1, st1), (l2, nest2, st2) = stages
+    s1 = {key: sp.Symbol("a%d" % q, integer=True) for q, (key, _, _, _) in enumerate(nest1)}
+    s2 = {key: sp.Symbol("b%d" % q, integer=True) for q, (key, _, _, _) in enumerate(nest2)}
+    N1, cnt1 = counter_of(nest1, s1)
+    N2, cnt2 = counter_of(nest2, s2)
+    if sp.expand(cnt1 - nt * (nz + 1)) != 0 or sp.expand(cnt2 - cnt1) != 0:
+        problems.append("the stages visit %s and %s nodes, not n_t*(n_z+1)" % (cnt1, cnt2))
+    # which loop variable of stage 1 runs around (count n_t) and which across
+    around1 = [key for (key, st, last, _) in nest1 if sp.expand(last - st + 1 - nt) == 0]
+    across1 = [key for (key, st, last, _) in nest1 if sp.expand(last - st + 1 - (nz + 1)) == 0]
+    if len(around1) != 1 or len(across1) != 1 or [k_ for (k_, _, _, _) in nest1] != [across1[0], around1[0]]:
+        rep.unknown(rule, "stage 1 is not `for height: for around:`")
+        return
+    ia, ja = s1[around1[0]], s1[across1[0]]
+    st_a = [st for (key, st, _, _) in nest1 if key == around1[0]][0]
+    st_j = [st for (key, st, _, _) in nest1 if key == across1[0]][0]
+    env1 = dict(env0)
+    env1.update(s1)
+    sym1 = norm.Sym(P, F, inline_locals=True, env=env1, hook=hook_pi)
+    arc = sp.simplify(sym1(st1["grid_x"]["c"][1]))
+    hgt = sp.simplify(sym1(st1["grid_z"]["c"][1]))
+    want_arc = (ia - st_a) * (2 * sp.pi * zmax) / nt
+    want_h = (ja - st_j) * (zmax - zmin) / nz
+    if sp.simplify(arc - want_arc) != 0:
+        problems.append("stage 1 stores the arc length %s, expected (i - %d)*2*pi*z_max/n_t" % (arc, st_a))
+    if sp.simplify(hgt - want_h) != 0:
+        problems.append("stage 1 stores the height %s, expected (j - %d)*(z_max - z_min)/n_z" % (hgt, st_j))
+    # stage 2: reads both stored values into locals first, then x = cos(theta)(inner + h), z = sin(theta)(inner + h), theta = arc/(2 pi z_max)*2 pi
+    A_, H_ = sp.symbols("ARC H", real=True)
+
+    def hook2(nn):
+        h_ = hook_pi(nn)
+        if h_ is not None:
+            return h_
+        s2_ = astq.subscript(nn)
+        if s2_ and R(s2_[1]) == "counter" and sc(s2_[0]).get("n") in ("grid_x", "grid_z"):
+            return {"grid_x": A_, "grid_z": H_}[sc(s2_[0])["n"]]
+        return None
+    sym2 = norm.Sym(P, F, inline_locals=True, env=dict(env0), hook=hook2)
+    theta = A_ / (2 * sp.pi * zmax) * 2 * sp.pi
+    for nm_, want in (("grid_x", sp.cos(theta) * (zmin + H_)), ("grid_z", sp.sin(theta) * (zmin + H_))):
+        y = st2[nm_]
+        if any(astq.subscript(t_) and sc(astq.subscript(t_)[0]).get("n") in ("grid_x", "grid_z") for t_ in F.walk(y["c"][1])):
+            problems.append("stage 2 computes %s from array elements that may already be overwritten" % nm_)
+            continue
+        got = sym2(y["c"][1])
+        if sp.simplify(got - want) != 0:
+            problems.append("stage 2 sets %s = %s" % (nm_, str(got)[:70]))
+    # ---- connectivity
+    conn = {}
+    cloop = None
+    for y in F.walk(blk):
+        if y.get("k") == "BinaryOperator" and y.get("op") == "=":
+            s_ = astq.subscript(y["c"][0])
+            s2_ = astq.subscript(s_[0]) if s_ else None
+            if s2_ and sc(s2_[0]).get("n") == "grid_connectivity" and R(s2_[1]) == "counter" and sc(s_[1]).get("k") == "IntegerLiteral":
+                conn[int(sc(s_[1])["v"])] = y
+                cloop = nest_of(y)
+    if sorted(conn) != [0, 1, 2, 3] or not cloop or len(cloop) != 2:
+        rep.unknown(rule, "connectivity loop not recognised (entries %s)" % sorted(conn))
+        return
+    (jk, jst, jlast, _), (ik, ist, ilast, iloop) = cloop
+    if sp.expand(ilast - ist + 1 - nt) != 0 or sp.expand(jlast - jst + 1 - nz) != 0 or ist != 1 or jst != 1:
+        problems.append("the cell loop is not `for j = 1..n_z: for i = 1..n_t`")
+    I_, J_ = sp.symbols("I J", integer=True, positive=True)
+    ccount = (J_ - 1) * nt + (I_ - 1)
+
+    def Nnode(i_, j_):
+        return sp.expand(j_ * nt + (i_ - 1))
+    for last_col in (False, True):
+        def choose(c, last_col=last_col):
+            t = norm.render(P, c, nocast=True).replace(" ", "")
+            if t in ("(i==n_cell_t)", "(n_cell_t==i)") or ("==" in t and "n_cell_t" in t):
+                return last_col
+            return None
+        envc = dict(env0)
+        envc[ik] = I_
+        envc[jk] = J_
+        B = Block(P, F, choose=choose)
+        B.sym.env.update(envc)
+        for v_ in F.walk(blk):
+            if v_.get("k") == "VarDecl" and v_.get("n") == "counter":
+                B.sym.env[v_["r"]] = ccount
+        body = astq.stmts_of(iloop["c"][3])
+        vals = {}
+        try:
+            for st in body:
+                hit = [m for m, y in conn.items() if y is st or any(z is y for z in F.walk(st))]
+                if hit:
+                    for m in hit:
+                        vals[m] = sp.expand(B.sym(conn[m]["c"][1]))
+                    continue
+                if st.get("k") == "UnaryOperator":
+                    continue
+                B.stmt(st)
+        except AnalysisBroken as e:
+            rep.unknown(rule, "connectivity: %s" % e)
+            return
+        ip1 = sp.Integer(1) if last_col else I_ + 1
+        sub = {I_: nt} if last_col else {}
+        want = [Nnode(ip1, J_ - 1), Nnode(I_, J_ - 1), Nnode(I_, J_), Nnode(ip1, J_)]
+        got = [sp.expand(vals.get(m, sp.nan).subs(sub)) for m in range(4)]
+        want = [sp.expand(w.subs(sub)) for w in want]
+        corner_set = set(want)
+        if set(got) != corner_set:
+            problems.append("%s column: the cell lists %s, expected the corners %s" % ("last" if last_col else "inner", got, want))
+        else:
+            order = [want.index(g) for g in got]
+            ring = [(1, 0), (0, 0), (0, 1), (1, 1)]
+            if not all(sum(abs(a - b) for a, b in zip(ring[order[q]], ring[order[(q + 1) % 4]])) == 1 for q in range(4)):
+                problems.append("%s column: the four corners are not listed as a closed walk: %s" % ("last" if last_col else "inner", got))
+    if problems:
+        rep.violation(rule, "annulus: %s" % "; ".join(problems)[:400], F.nloc(blocks[0]), F.qn, "", "nodes or cells of the annulus are misplaced", key=rule,
+                      witness="gwb-grid with grid_type annulus and more than one cell across")
+    else:
+        rep.ok(rule, "annulus: n_t*(n_z+1) nodes at radius z_min + j*dr and angle (i-1)*2*pi/n_t; cells are closed walks with wrap-around in the last column", F.nloc(blocks[0]), F.qn)
+
+
 def filter_call_sites(P, rep, rule="FILTER.calls"):
     rep.rule(rule, "filter_vtu_mesh appends to its output mesh and data sets: at every call the output containers are objects declared in the "
                    "same iteration (block) as the call and not used before it, so each filtered file starts empty")
